@@ -34,6 +34,7 @@ type C08Op struct {
 	Keys    []int  `json:"keys,omitempty"`   // replenish: account / pool indices
 	Alw     int    `json:"alw,omitempty"`    // renew / refresh: allowance code
 	Col     int    `json:"col,omitempty"`    // renew / refresh: collateral code
+	Stale   bool   `json:"stale,omitempty"`  // renew / refresh: build the request at the stashed (older) basis with the stashed (older, still valid) price table
 	What    string `json:"what,omitempty"`   // settings: maxcol | maxdur | accept | prices
 	Old     bool   `json:"old,omitempty"`    // address contract C itself even if it has been renewed (do not follow the renewal)
 	Race    *C08Op `json:"race,omitempty"`   // race: the second RPC, run concurrently on the same contract
@@ -85,6 +86,10 @@ type c08 struct {
 	commits      int
 	rejected     int // corrupted / replayed requests that were rejected
 	refusedStale int // revising RPCs on renewed / expired contracts that were refused
+	// what a renter that prepared a request some blocks ago still holds: the
+	// chain index of that time, its own outputs with proofs for that index, and
+	// the price table it fetched then
+	stash *staleView
 	// material for replay corruptions: last committed exchange per kind+contract
 	lastReq map[replayKey]proto4.Object
 	lastSig map[replayKey]types.Signature
@@ -851,6 +856,14 @@ func (x *c08) renewOn(op C08Op, m *mcontract) error {
 	before := x.snapshot()
 	logFrom := x.H.Log.Len()
 	prices := x.Prices
+	if op.Stale && !corrupted && x.stash != nil {
+		// the renter still holds the view it had when it took the stash: an
+		// older (real) chain index, inputs proved for it, and a price table
+		// whose signed tip height is equally old but which is still valid
+		prices = x.stash.prices
+		tamper = &rhpx.Tamper{Request: x.staleRequest}
+		what += fmt.Sprintf(" [request built at height %d, host tip %d]", x.stash.basis.Height, x.H.CM.Tip().Height)
+	}
 	forbidden := x.forbiddenBySettings(m, args, prices)
 	r := x.R.Renew(m.view(), prices, args, rhpx.Script{}, tamper)
 	if r.Infra != nil {
@@ -922,6 +935,98 @@ func (x *c08) renewOn(op C08Op, m *mcontract) error {
 		return err
 	}
 	return x.staleBattery(m)
+}
+
+type staleView struct {
+	basis  types.ChainIndex
+	utxos  map[types.SiacoinOutputID]types.SiacoinElement
+	prices proto4.HostPrices
+}
+
+// takeStash records the renter's current view (tip, its spendable outputs with
+// proofs for that tip, a freshly fetched price table).
+func (x *c08) takeStash() error {
+	outs, err := x.H.RenterWallet.SpendableOutputs()
+	if err != nil {
+		return fmt.Errorf("%w: %v", errInfra, err)
+	}
+	p, err := x.H.FetchPrices()
+	if err != nil {
+		return fmt.Errorf("%w: %v", errInfra, err)
+	}
+	st := &staleView{basis: x.H.CM.Tip(), utxos: map[types.SiacoinOutputID]types.SiacoinElement{}, prices: p}
+	for _, o := range outs {
+		st.utxos[o.ID] = o.Copy()
+	}
+	x.stash = st
+	x.cs.Class("stash-taken")
+	return nil
+}
+
+// staleRequest rewrites a renew / refresh request so that it is what the renter
+// would have built at the stashed index: older basis, inputs proved for it.
+func (x *c08) staleRequest(o proto4.Object) {
+	st := x.stash
+	swap := func(basis *types.ChainIndex, inputs []types.SiacoinElement, parents []types.V2Transaction) {
+		if len(parents) > 0 {
+			return
+		}
+		repl := make([]types.SiacoinElement, len(inputs))
+		for i, in := range inputs {
+			old, ok := st.utxos[in.ID]
+			if !ok {
+				return // an output that did not exist then
+			}
+			repl[i] = old.Copy()
+		}
+		copy(inputs, repl)
+		*basis = st.basis
+		x.cs.Class("request-built-at-stale-basis")
+	}
+	switch r := o.(type) {
+	case *proto4.RPCRenewContractRequest:
+		swap(&r.Basis, r.RenterInputs, r.RenterParents)
+	case *proto4.RPCRefreshContractRequest:
+		swap(&r.Basis, r.RenterInputs, r.RenterParents)
+	}
+}
+
+// mineNear brings the tip to within d (1..18) blocks of the live contract's
+// proof height - it is then still revisable, but too close to its proof window
+// for any renewal or refresh - and issues all three kinds, each built at the
+// current tip and at the basis / price table stashed before the mining.
+func (x *c08) mineNear(op C08Op) error {
+	m := x.live(op.C)
+	if x.nonRevisable(m) {
+		return nil
+	}
+	if x.stash == nil {
+		if err := x.takeStash(); err != nil {
+			return err
+		}
+	}
+	d := uint64(1 + mod(op.Len, 18))
+	goal := m.Rev.ProofHeight - d
+	if tip := x.H.CM.Tip().Height; tip < goal {
+		if err := x.H.Mine(types.VoidAddress, int(goal-tip)); err != nil {
+			return err
+		}
+	}
+	x.cs.Class("mined-near-proof-height")
+	if err := x.after("mine near the proof height", nil, nil); err != nil {
+		return err
+	}
+	for _, kind := range []string{"refresh-full", "refresh-partial", "renew"} {
+		for _, stale := range []bool{true, false} {
+			if m.Renewed {
+				return nil
+			}
+			if err := x.renewOn(C08Op{Op: kind, Alw: op.Alw, Col: op.Col, Stale: stale}, m); err != nil {
+				return err
+			}
+		}
+	}
+	return nil
 }
 
 // forbiddenBySettings judges a renew / refresh request against the host
@@ -1385,6 +1490,10 @@ func (x *c08) step(op C08Op) error {
 			return err
 		}
 		return x.staleBattery(m)
+	case "stash":
+		return x.takeStash()
+	case "minenear":
+		return x.mineNear(op)
 	case "settings":
 		return x.changeSettings(op)
 	case "confirm":
@@ -1482,7 +1591,7 @@ func runC08(c C08Case, cs *kit.CaseStats) error {
 
 func genC08Op(t *rapid.T, nc int, allowRace bool) C08Op {
 	op := C08Op{C: rapid.IntRange(0, nc-1).Draw(t, "c")}
-	k := rapid.IntRange(0, 39).Draw(t, "op")
+	k := rapid.IntRange(0, 42).Draw(t, "op")
 	switch {
 	case k < 6:
 		op.Op = "fund"
@@ -1532,6 +1641,14 @@ func genC08Op(t *rapid.T, nc int, allowRace bool) C08Op {
 			op.Op = "minepast"
 			op.Len = rapid.SampledFrom([]int{0, 0, 0, 1}).Draw(t, "expire")
 		}
+	case k >= 42:
+		op.Op = "stash"
+		return op
+	case k >= 40:
+		op.Op = "minenear"
+		op.Len = rapid.IntRange(0, 17).Draw(t, "distance")
+		op.Alw, op.Col = rapid.IntRange(0, len(amountTable)-1).Draw(t, "malw"), rapid.IntRange(0, len(amountTable)-1).Draw(t, "mcol")
+		return op
 	case k >= 38:
 		op.Op = "settings"
 		op.What = rapid.SampledFrom([]string{"maxcol", "maxcol", "maxdur", "accept", "prices"}).Draw(t, "what")
@@ -1588,7 +1705,7 @@ func genC08Op(t *rapid.T, nc int, allowRace bool) C08Op {
 		var chain *C08Op
 		for i := 0; i < n; i++ {
 			p := genC08Op(t, nc, false)
-			for p.Op == "latest" || p.Op == "mine" || p.Op == "minepast" || p.Op == "confirm" || p.Op == "settings" || p.Op == "renew" || p.Op == "refresh-full" || p.Op == "refresh-partial" {
+			for p.Op == "latest" || p.Op == "mine" || p.Op == "minepast" || p.Op == "confirm" || p.Op == "settings" || p.Op == "stash" || p.Op == "minenear" || p.Op == "renew" || p.Op == "refresh-full" || p.Op == "refresh-partial" {
 				p = C08Op{Op: "fund", Dep: []int{rapid.IntRange(0, 2).Draw(t, "racct"), rapid.IntRange(0, 3).Draw(t, "ramt")}}
 			}
 			p.Corrupt, p.Race = "", chain
@@ -1607,6 +1724,7 @@ func genC08Op(t *rapid.T, nc int, allowRace bool) C08Op {
 		}
 	case "renew", "refresh-full", "refresh-partial":
 		op.Alw, op.Col = rapid.IntRange(0, len(amountTable)-1).Draw(t, "alw"), rapid.IntRange(0, len(amountTable)-1).Draw(t, "col")
+		op.Stale = rapid.IntRange(0, 2).Draw(t, "stale") == 0
 	}
 	if len(corruptionsFor(op.Op)) > 0 {
 		op.Old = rapid.IntRange(0, 5).Draw(t, "old") == 0
@@ -1636,7 +1754,7 @@ func genC08(t *rapid.T) C08Case {
 
 var c08Prop = kit.Prop[C08Case]{
 	ID:   "C08",
-	Rule: "sequences (2..20, thorough 2..40) of operator settings changes at runtime (MaxCollateral, MaxContractDuration, AcceptingContracts, prices; every later renew / refresh judged by core's request validation against the settings in force when it arrives, price tables staying valid until they expire), fund, replenish accounts/pools, append, free, sector-roots, latest-revision, renew, refresh (full/partial), mine, broadcasting and mining an older doubly-signed revision while newer ones exist, 2-3-way races of honest RPCs and forced interleavings (a second RPC on the same contract issued exactly while the host waits for the second renter message of a renew, refresh, append, free or replenish) on 1-2 contracts against the real rhp4.Server, every revising RPC kind re-issued against a contract after it was renewed / refreshed or after the chain was mined past its proof height (must be refused, nothing signed or persisted), each RPC honest or with exactly one corruption (challenge: garbage / zero / other key / number -1 / +1 / replayed; renter signature: garbage / zero / other key / over another amount, root or number / replayed; replayed request; price table signed by another key / expired / altered; request for another contract; out-of-range indices, offsets, lengths; zero, missing or overflowing deposits and targets; honest-looking deposit lists and replenish targets at the edges of the 128-bit range (2^64-1, 2^64, 2^127, 2^128-1-k; sums that overflow early, late, or wrap to something affordable - the renter then signs the wrapped total); renewal parameters out of bounds; renewal funded with inputs whose signatures are invalid or that are double-spent through the pool), the rest of the exchange carried on honestly. Oracle over the recorded Contractor calls: every committed revision equals core's ReviseFor*/Renew*/Refresh* applied by the harness to the previous revision and the arguments it sent, is doubly signed, monotone and value conserving; corrupted or underivable requests change nothing and trigger no mutating call; the latest revision validates under core as a revision of the on-chain element. Non-trivial = >= 2 committed revisions and >= 1 rejected corrupted/replayed request in one sequence; distinct by hash of the case.",
+	Rule: "sequences (2..20, thorough 2..40) of contracts mined to within 1..18 blocks of their proof height with renew / refresh requests built at the current tip and at an older real basis with an equally old, still valid price table (judged by the rule of core at the tip of the HOST), operator settings changes at runtime (MaxCollateral, MaxContractDuration, AcceptingContracts, prices; every later renew / refresh judged by core's request validation against the settings in force when it arrives, price tables staying valid until they expire), fund, replenish accounts/pools, append, free, sector-roots, latest-revision, renew, refresh (full/partial), mine, broadcasting and mining an older doubly-signed revision while newer ones exist, 2-3-way races of honest RPCs and forced interleavings (a second RPC on the same contract issued exactly while the host waits for the second renter message of a renew, refresh, append, free or replenish) on 1-2 contracts against the real rhp4.Server, every revising RPC kind re-issued against a contract after it was renewed / refreshed or after the chain was mined past its proof height (must be refused, nothing signed or persisted), each RPC honest or with exactly one corruption (challenge: garbage / zero / other key / number -1 / +1 / replayed; renter signature: garbage / zero / other key / over another amount, root or number / replayed; replayed request; price table signed by another key / expired / altered; request for another contract; out-of-range indices, offsets, lengths; zero, missing or overflowing deposits and targets; honest-looking deposit lists and replenish targets at the edges of the 128-bit range (2^64-1, 2^64, 2^127, 2^128-1-k; sums that overflow early, late, or wrap to something affordable - the renter then signs the wrapped total); renewal parameters out of bounds; renewal funded with inputs whose signatures are invalid or that are double-spent through the pool), the rest of the exchange carried on honestly. Oracle over the recorded Contractor calls: every committed revision equals core's ReviseFor*/Renew*/Refresh* applied by the harness to the previous revision and the arguments it sent, is doubly signed, monotone and value conserving; corrupted or underivable requests change nothing and trigger no mutating call; the latest revision validates under core as a revision of the on-chain element. Non-trivial = >= 2 committed revisions and >= 1 rejected corrupted/replayed request in one sequence; distinct by hash of the case.",
 	Assumptions: []string{
 		"host = rhp4.Server over the repository's reference EphemeralContractor (which itself re-checks signatures and revision numbers) on the all-v2 test network, in-memory transport",
 		"expired price tables are produced by signing a table with a past ValidUntil with the host key (the harness holds it); no sleeping",
